@@ -49,7 +49,9 @@ def _menu(k: int) -> List[tuple]:
     rev = tuple(reversed(ident))
     if rev not in out:
         out.append(rev)
-    for r in range(1, k - 1 + 1):
+    # every proper rotation up to 6 elements; for larger sets the rotations by 1, k//2 and k-1 (each element still gets to be
+    # first, last or in the middle in some offered order)
+    for r in (range(1, k) if k <= 6 else (1, k // 2, k - 1)):
         rot = ident[r:] + ident[:r]
         if rot not in out:
             out.append(rot)
@@ -184,7 +186,9 @@ class _Rewriter(ast.NodeTransformer):
 
     def visit_Call(self, node: ast.Call):
         self.generic_visit(node)
-        if isinstance(node.func, ast.Name) and node.func.id in QUIET_CONSUMERS and node.args:
+        # a consumer is order-insensitive only in its plain form: with key= (ties!), default= or further arguments the order in
+        # which the set's elements arrive can show in the result
+        if isinstance(node.func, ast.Name) and node.func.id in QUIET_CONSUMERS and len(node.args) == 1 and not node.keywords:
             node.args[0] = ast.copy_location(ast.Call(func=ast.Name(id="vs_quiet_", ctx=ast.Load()),
                                                       args=[node.args[0]], keywords=[]), node.args[0])
         return node
